@@ -476,17 +476,31 @@ func c20Leak(p *chk.Prog, r *chk.Report) {
 				return b != nil && f.ObjOf(b["R"]) == res && derivesFromField(f, b["SRC"], fld)
 			})
 			ok = len(cp) == 1 && definedBy(g, "make(T, len(SRC))")(rr[0])
+			var copyNode ast.Node
+			if ok {
+				copyNode = cp[0].Node
+			}
 			if !ok {
 				// the library spellings of "a fresh slice with the same elements"
 				val := f.Resolve(rr[0])
 				for _, pat := range []string{"slices.Clone(SRC)", "append(T(nil), SRC...)", "append(T{}, SRC...)"} {
 					if b := f.MatchNew(pat, val); b != nil && derivesFromField(f, b["SRC"], fld) {
 						ok = true
+						copyNode = val
+					}
+				}
+			}
+			// the elements are read while the lock is held (a slice header fetched under the lock still shares its
+			// elements with the guarded storage, which handlers rewrite in place)
+			if ok && copyNode != nil {
+				if lk := p.LockField("internal/layer2", c.recv, ""); lk != nil {
+					if _, held := locksOf(p).HeldAt(f, copyNode)[lk]; !held {
+						ok = false
 					}
 				}
 			}
 		}
-		x.Check(c.recv+"."+c.name+":returns-copy", f.Pos(), ok, "", c.name+" does not return a fresh copy of "+c.field)
+		x.Check(c.recv+"."+c.name+":returns-copy", f.Pos(), ok, "", c.name+" does not return a fresh copy of "+c.field+" made while the lock is held")
 	}
 }
 
